@@ -73,8 +73,8 @@ ADDED = {
  "C02": " Later additions: exponent sweep, every half turn of longitude, integer degrees, source-literal positions (as C01)." + SEQ,
  "C03": " Later additions: vertices_map on all 16 direction sets, path_along_cell_side on every (from, to, include) combination, carry-chain cells (coordinates 2^k-1, 2^k, 10 1..1 for every k) at every depth." + SEQ,
  "C04": " Later additions: carry-chain cells (full cross product of the coordinates 2^k-1, 2^k, 10 1..1 in every base cell) and 32 spread interior cells per base cell at every depth." + SEQ,
- "C05": " Later additions: radius-relative centres, centres at the narrowest cells of the start depth (exhaustive search), deep-large (1e4..1e5 cells) and deep-huge (radius / cell > 5e4, ~1e6 cells) strata. The former known finding KF-1 is repaired (fix f1d7abd) and no longer consulted." + SEQ,
- "C06": " Later additions: the deep-large / deep-huge / narrowest-cell strata of C05." + SEQ,
+ "C05": " Later additions: radius-relative centres, centres at the narrowest cells of the start depth (exhaustive search), deep-large (1e4..1e5 cells) and deep-huge (radius / cell > 5e4, ~1e6 cells) strata, band cones (cones entirely inside one latitude band, near edge at 2..60 % of the radius from each critical parallel). The former known finding KF-1 is repaired (fix f1d7abd) and no longer consulted." + SEQ,
+ "C06": " Later additions: the deep-large / deep-huge / narrowest-cell / band-cone strata of C05." + SEQ,
  "C07": " Later additions: operand SIZE SWEEP (every n = 1..520 / 4000 for 7 operand shapes), merge-cascade operands (every cascade length 1..29), coverage-sized operands, LONG operands of 2^k-1, 2^k, 2^k+1 entries (k = 10..15 / 20) incl. shapes where the long operand starts first." + SEQ,
  "C08": " Later additions: the size sweep, merge cascades and coverage-sized operands of C07 with mixed flags." + SEQ,
  "C09": " Later additions: size sweep and merge cascades through all views." + SEQ,
